@@ -59,6 +59,10 @@ pub struct SocksCase {
     pub glue_request: bool,
     pub payload: Vec<u8>,
     pub neighbour: bool,
+    /// Some(k): another client sits on the listener with only the first k bytes of its greeting
+    /// sent (a slow or stalled peer) for the whole conversation
+    #[serde(default)]
+    pub staller: Option<u8>,
 }
 
 pub struct SocksFam;
@@ -125,9 +129,9 @@ impl Family for SocksFam {
             (atyp, proptest::bool::weighted(0.05), dest),
             (0u8..4, proptest::collection::vec(any::<u16>(), 1..5), any::<bool>()),
             prop_oneof![Just(Vec::new()), proptest::collection::vec(any::<u8>(), 1..200)],
-            proptest::bool::weighted(0.3),
+            (proptest::bool::weighted(0.3), proptest::option::weighted(0.3, 0u8..3)),
         )
-            .prop_map(|((g_ver, g_methods, r_ver, cmd, rsv), (atyp, zero_len_domain, dest), (delivery, cuts, glue_request), payload, neighbour)| SocksCase {
+            .prop_map(|((g_ver, g_methods, r_ver, cmd, rsv), (atyp, zero_len_domain, dest), (delivery, cuts, glue_request), payload, (neighbour, staller))| SocksCase {
                 g_ver,
                 g_methods,
                 r_ver,
@@ -141,6 +145,7 @@ impl Family for SocksFam {
                 glue_request,
                 payload,
                 neighbour,
+                staller,
             })
             .boxed()
     }
@@ -166,12 +171,23 @@ impl Family for SocksFam {
                 let all_targets: Vec<&TcpTarget> = [Some(&w.echo_a), Some(&w.echo_b), Some(&w.echo_local), w.echo_v6.as_ref()].into_iter().flatten().collect();
                 let before: Vec<usize> = all_targets.iter().map(|t| t.n_conns()).collect();
 
+                // a stalled peer: connected, greeting only partly sent, kept open until the end
+                let mut stalled = None;
+                if let Some(k) = case.staller {
+                    let mut x = TcpStream::connect(w.socks).await.map_err(|e| infra(format!("connect to the SOCKS5 listener: {e}")))?;
+                    let _ = x.set_nodelay(true);
+                    let g = [5u8, 2, 2];
+                    let _ = x.write_all(&g[..(k as usize).min(3)]).await;
+                    tokio::time::sleep(Duration::from_millis(20)).await;
+                    stalled = Some(x);
+                }
                 // neighbour first
                 let mut neigh = None;
                 if case.neighbour {
-                    match socks5_connect(w.socks, &Dest::of(w.echo_b.addr)).await {
-                        Ok(s) => neigh = Some(s),
-                        Err(e) => return Err(Fail::plain("C16.local", format!("a valid neighbour connection could not be established (reply {:?})", e))),
+                    match tokio::time::timeout(Duration::from_secs(8), socks5_connect(w.socks, &Dest::of(w.echo_b.addr))).await {
+                        Ok(Ok(s)) => neigh = Some(s),
+                        Ok(Err(e)) => return Err(Fail::plain("C16.local", format!("a valid neighbour connection could not be established (reply {:?})", e))),
+                        Err(_) => return Err(Fail::plain("C16.local", format!("a valid neighbour connection gets no service within 8 s{}", if case.staller.is_some() { " while another client sits on the listener with an unfinished greeting" } else { "" }))),
                     }
                 }
                 if case.neighbour {
@@ -288,7 +304,11 @@ impl Family for SocksFam {
                     let (got, _) = read_some(&mut n, 9, 10_000).await;
                     ensure!(got == b"neighbour", "C16.local", "the neighbour connection no longer echoes after this conversation ({desc})");
                 }
-                match socks5_connect(w.socks, &Dest::of(w.echo_a.addr)).await {
+                let fresh = match tokio::time::timeout(Duration::from_secs(8), socks5_connect(w.socks, &Dest::of(w.echo_a.addr))).await {
+                    Ok(r) => r,
+                    Err(_) => return Err(Fail::plain("C16.local", format!("a fresh valid connection gets no service within 8 s{} ({desc})", if case.staller.is_some() { " while another client sits on the listener with an unfinished greeting" } else { "" }))),
+                };
+                match fresh {
                     Ok(mut f) => {
                         f.write_all(b"fresh").await.map_err(|e| Fail::plain("C16.local", format!("fresh connection broke: {e}")))?;
                         let (got, _) = read_some(&mut f, 5, 10_000).await;
@@ -297,6 +317,7 @@ impl Family for SocksFam {
                     Err(e) => return Err(Fail::plain("C16.local", format!("a fresh valid CONNECT fails after this conversation (reply {:?}) ({desc})", e))),
                 }
                 let _ = before;
+                drop(stalled);
                 Ok((greet_ok, tunnel_expected))
             })
         });
@@ -316,6 +337,7 @@ impl Family for SocksFam {
         out.class_if(matches!(case.dest, DestSel::EchoV6 | DestSel::Localhost), "atyp!=1");
         out.class_if(tunnel_expected, "tunnel");
         out.class_if(case.glue_request && greet_ok, "glued");
+        out.class_if(case.staller.is_some(), "stalled-peer-alongside");
         Ok(out)
     }
 }
